@@ -151,6 +151,30 @@ func c13(ctx *Ctx) (*Outcome, error) {
 		root.Props = append(root.Props, sg.Prop{Name: "anyprop", S: &sg.Schema{}}, sg.Prop{Name: "anyitems", S: &sg.Schema{Types: []string{"array"}, Items: &sg.Schema{}}},
 			sg.Prop{Name: "anyadd", S: &sg.Schema{Types: []string{"object"}, Props: []sg.Prop{{Name: "k", S: &sg.Schema{Types: []string{"string"}}}}, AddProps: &sg.Schema{}}})
 		root.Extra = append(root.Extra, jsonx.KV{K: "dependentSchemas", V: jsonx.Obj{{K: "anyprop", V: jsonx.Obj{{K: "type", V: "object"}, {K: "required", V: []any{"anyitems"}}}}}})
+		if i%5 == 4 {
+			// a "type library": the root carries nothing but an id and definitions (also reached through an external $ref
+			// is not needed: the root document itself shows whether the two definition spellings are treated alike)
+			lib := &sg.Schema{ID: "https://example.com/spell", Defs: root.Defs}
+			if len(lib.Defs) == 0 {
+				lib.Defs = []sg.Prop{{Name: "Thing", S: &sg.Schema{Types: []string{"object"}, Props: []sg.Prop{{Name: "n", S: &sg.Schema{Types: []string{"integer"}}}}}}}
+			}
+			// definitions may reference each other only
+			ok := true
+			lib.Walk(func(x *sg.Schema) {
+				if x.Ref != "" && x.Target != nil {
+					found := false
+					for _, d := range lib.Defs {
+						if d.S == x.Target {
+							found = true
+						}
+					}
+					ok = ok && found
+				}
+			})
+			if ok {
+				root = lib
+			}
+		}
 		// the output must depend on the id, so that a lost id spelling is visible
 		j := &job{root: root, opts: append(RandArgs(r, nil), "--schema-root-type", "https://example.com/spell=SpellRoot")}
 		// base spelling first, then a sample of combinations (thorough: more)
